@@ -354,10 +354,12 @@ func (g *c04Gen) arrLen(depth int, scalar bool) int {
 		return 1
 	case 4:
 		if scalar {
-			return core.Pick(g.r, 126, 127, 128)
+			// 126..128: compact length changes width; 256/257/700: the decoder allocates arrays longer
+			// than 256 elements as their content arrives
+			return core.Pick(g.r, 126, 127, 128, 256, 257, 700)
 		}
 		if depth == 0 {
-			return core.Pick(g.r, 1, 127, 128)
+			return core.Pick(g.r, 1, 127, 128, 257, 520)
 		}
 		return 1
 	case 5:
